@@ -605,7 +605,7 @@ pub fn class_string(u: &mut Choice, alphabet: &[&[u8]], maxsyms: usize, out: &mu
 use crate::real::{Entry, C_IGNORE_REQ, C_IGNORE_RESP, C_MULTILINE, C_MULTISPACE_REQ, C_MULTISPACE_RESP,
     C_SPACES_AFTER_NAME, C_SPACE_BEFORE_FIRST};
 
-pub const N_FAMILIES: usize = 30;
+pub const N_FAMILIES: usize = 37;
 
 pub fn family_name(f: usize) -> &'static str {
     [
@@ -618,6 +618,9 @@ pub fn family_name(f: usize) -> &'static str {
         "G1-like block repeated", "long value then NUL (late error)", "many headers then bad line (late error)",
         "fold + ignore: folded lines with a bad byte late", "space-before-first + ignore: whitespace-led bad lines",
         "long method token", "pure CR/LF", "target of multi-byte UTF-8",
+        "interior SP run in a value (a + SP^n + b)", "interior HTAB run in a value", "whitespace-only folds then a visible byte",
+        "many short whitespace runs in a value", "long SP run then a fold continuation", "SP run inside an ignored line",
+        "reason phrase with an interior SP run",
     ][f % N_FAMILIES]
 }
 
@@ -797,11 +800,57 @@ pub fn family(f: usize, size: usize) -> (Entry, u8, Vec<u8>) {
             rep(&mut b, b"\r\n", size);
             (Entry::RespParse, 0, b)
         }
-        _ => {
+        29 => {
             b.extend_from_slice(b"GET /");
             rep(&mut b, b"\xe2\x82\xac\xc3\xa9", size);
             b.extend_from_slice(b" HTTP/1.1\r\n\r\n");
             (Entry::ReqParse, 0, b)
+        }
+        30 => {
+            b.extend_from_slice(b"A: a");
+            rep(&mut b, b" ", size);
+            b.extend_from_slice(b"b\r\n\r\n");
+            (Entry::Headers, 0, b)
+        }
+        31 => {
+            b.extend_from_slice(req);
+            b.extend_from_slice(b"A: a");
+            rep(&mut b, b"\t", size);
+            b.extend_from_slice(b"b\r\nC: d\r\n\r\n");
+            (Entry::ReqParse, 0, b)
+        }
+        32 => {
+            b.extend_from_slice(resp);
+            b.extend_from_slice(b"A: a");
+            rep(&mut b, b"\r\n ", size);
+            b.extend_from_slice(b"b\r\n\r\n");
+            (Entry::RespCfg, C_MULTILINE, b)
+        }
+        33 => {
+            b.extend_from_slice(b"A: ");
+            rep(&mut b, b"x \ty  ", size);
+            b.extend_from_slice(b"z\r\n\r\n");
+            (Entry::Headers, 0, b)
+        }
+        34 => {
+            b.extend_from_slice(resp);
+            b.extend_from_slice(b"A: a");
+            rep(&mut b, b" ", size);
+            b.extend_from_slice(b"\r\n b\r\n\r\n");
+            (Entry::RespCfg, C_MULTILINE, b)
+        }
+        35 => {
+            b.extend_from_slice(req);
+            b.extend_from_slice(b"bad");
+            rep(&mut b, b" ", size);
+            b.extend_from_slice(b"x\r\nA: b\r\n\r\n");
+            (Entry::ReqCfg, C_IGNORE_REQ, b)
+        }
+        _ => {
+            b.extend_from_slice(b"HTTP/1.1 200 a");
+            rep(&mut b, b" ", size);
+            b.extend_from_slice(b"b\r\nA: b\r\n\r\n");
+            (Entry::RespParse, 0, b)
         }
     }
 }
